@@ -127,6 +127,12 @@ func (c *fctx) aliasSource(e ast.Expr, en *env) (string, bool) {
 		}
 	case *ast.SliceExpr:
 		return c.aliasSource(x.X, en)
+	case *ast.IndexExpr: // [ext:T08] an element of a [][]byte shares with the table
+		if tv, ok := c.t.info.Types[x.X]; ok && tv.Type != nil {
+			if g, ok := c.t.type08(tv.Type, x); ok && g.nest {
+				return c.aliasSource(x.X, en)
+			}
+		}
 	case *ast.CallExpr:
 		if id, ok := ast.Unparen(x.Fun).(*ast.Ident); ok {
 			if b, ok := c.t.info.Uses[id].(*types.Builtin); ok {
@@ -242,7 +248,12 @@ func (c *fctx) pure(e ast.Expr) bool {
 		return true
 	case *ast.CallExpr:
 		b := c.builtin(x)
-		if b == "len" || b == "cap" || b == "min" || b == "max" || b == "append" || c.isConversion(x) {
+		pureFn := false
+		if c.t.funcValueCall(x) != nil { // a function value without slice parameters is a total pure function
+			g := c.t.exprType(x.Fun)
+			pureFn = g.k == kFunc && g.fn.pure && c.pure(x.Fun)
+		}
+		if b == "len" || b == "cap" || b == "min" || b == "max" || b == "append" || c.isConversion(x) || pureFn {
 			for _, a := range x.Args {
 				if !c.pure(a) {
 					return false
@@ -307,6 +318,9 @@ func (c *fctx) expr(e ast.Expr, en *env, k func(string) string) string {
 			}
 			return k(v.name)
 		}
+		if fn := t.funcValueRef(x); fn != nil { // a function of the package used as a value (trans_func.go)
+			return k(c.funcValueTerm(fn, x))
+		}
 		if s, ok := c.sentinel20(x, o); ok { // [ext:T20] package-level `var ErrX = errors.New("...")`, never assigned
 			c.sentinelClash15(x) // [ext:T15]
 			return k(s)
@@ -342,6 +356,11 @@ func (c *fctx) expr(e ast.Expr, en *env, k func(string) string) string {
 	case *ast.BinaryExpr:
 		return c.binary(x, en, k)
 	case *ast.IndexExpr:
+		if id, ok := ast.Unparen(x.X).(*ast.Ident); ok { // f[T] used as a value (trans_func.go)
+			if fn := t.funcValueRef(id); fn != nil {
+				return k(c.funcValueTerm(fn, x))
+			}
+		}
 		if g := t.exprType(x.X); g.k != kSlice || g.elem != nil { // [seq] a whole struct element is not a value
 			t.fail(x, "index expression on a non-slice (or a struct element used as a value)")
 		}
@@ -349,14 +368,14 @@ func (c *fctx) expr(e ast.Expr, en *env, k func(string) string) string {
 		return c.expr(x.X, en, func(a string) string {
 			return c.expr(x.Index, en, func(i string) string {
 				v := c.fresh("v")
-				return fmt.Sprintf("do %s <- m_get %s %s;;\n%s", v, a, i, k(v))
+				return fmt.Sprintf("do %s <- %s %s %s;;\n%s", v, getFn08(t.exprType(x.X)), a, i, k(v)) // [ext:T08] m_getA on [][]byte
 			})
 		})
 	case *ast.SliceExpr:
 		if x.Slice3 {
 			t.fail(x, "3-index slice expression")
 		}
-		if g := t.exprType(x.X); g.k != kSlice || g.elem != nil {
+		if g := t.exprType(x.X); g.k != kSlice || g.elem != nil || g.nest { // [ext:T08] nest
 			t.fail(x, "slice expression on a non-slice (or on a slice of structs)")
 		}
 		return c.expr(x.X, en, func(a string) string {
@@ -379,6 +398,8 @@ func (c *fctx) expr(e ast.Expr, en *env, k func(string) string) string {
 				})
 			})
 		})
+	case *ast.CompositeLit: // [ext:T08] []byte{a, b}
+		return c.complit08(x, en, k)
 	case *ast.CallExpr:
 		return c.call(x, en, func(vs []string) string {
 			if len(vs) != 1 {
@@ -567,6 +588,7 @@ func (c *fctx) call(x *ast.CallExpr, en *env, k func([]string) string) string {
 			return k([]string{a})
 		})
 	}
+	c.refuseNested08(x, c.builtin(x)) // [ext:T08] append / copy / make on [][]byte
 	switch b := c.builtin(x); b {
 	case "len", "cap":
 		if t.exprType(x.Args[0]).k != kSlice {
@@ -629,10 +651,16 @@ func (c *fctx) call(x *ast.CallExpr, en *env, k func([]string) string) string {
 	default:
 		t.fail(x, "builtin %s", b)
 	}
+	if t.funcValueCall(x) != nil { // a function value (trans_func.go)
+		return c.callFuncValue(x, en, k)
+	}
 	if s, ok := c.seqCall(x, en, k); ok { // [seq] sync/atomic, runtime.Gosched
 		return s
 	}
 	if s, ok := c.call15(x, en, k); ok { // [ext:T15] fmt.Errorf / errors.New as an error kind; hex.EncodedLen / DecodedLen
+		return s
+	}
+	if s, ok := c.foreignCall08(x, en, k); ok { // [ext:T08] TransSpec.Foreign, errors.New / fmt.Errorf
 		return s
 	}
 	fn, recv := t.calleeOf(x)
@@ -672,7 +700,7 @@ func (c *fctx) call(x *ast.CallExpr, en *env, k func([]string) string) string {
 		}
 	}
 	emit := func(rterm string, vs []string) string {
-		app := fi.name + fuel
+		app := fi.name + fuel + c.callee08(fi, x) // [ext:T08] ext'
 		if rv != nil {
 			app += " " + rv.name
 		}
@@ -684,6 +712,13 @@ func (c *fctx) call(x *ast.CallExpr, en *env, k func([]string) string) string {
 		}
 		for _, v := range vs {
 			app += " " + v
+		}
+		if back := t.writtenArgs(x); len(back) > 0 { // in-out slice arguments come back after the receiver (trans_func.go)
+			rn := ""
+			if rv != nil && fi.writes {
+				rn = rv.name
+			}
+			return c.bindCall(app, rn, back, len(fi.results), en, x, k)
 		}
 		var rs []string
 		for range fi.results {
